@@ -56,6 +56,8 @@ type Case struct {
 	Nest      *Nest   `json:"nest,omitempty"`
 	Seq       []gen.G `json:"seq,omitempty"`
 	Order     []int   `json:"order,omitempty"` // Seq only: order of the churn calls made after everything was retained
+	Large     *Large  `json:"large,omitempty"` // size ladder (TestEnumLarge): built procedurally, see large_test.go
+	Alias     *Alias  `json:"alias,omitempty"` // members that share memory with each other, see large_test.go
 }
 
 // Nest is a leaf geometry inside Depth nested collections.
@@ -384,7 +386,19 @@ func clip(s string) string {
 
 // checkText parses one spelling of the text with Unmarshal and with all seven
 // typed functions and compares with the expected canonical value.
-func checkText(what, s string, want orb.Geometry, kw string) error {
+func checkText(what, text string, want orb.Geometry, kw string) error {
+	// the parse functions get a string converted from a caller-owned []byte; text is the caller's record of it
+	s := string([]byte(text))
+	if err := checkTextCalls(what, s, want, kw); err != nil {
+		return err
+	}
+	if s != text {
+		return fmt.Errorf("%s: the text passed to the parse functions was modified: now %q, was %q", what, clip(s), clip(text))
+	}
+	return nil
+}
+
+func checkTextCalls(what, s string, want orb.Geometry, kw string) error {
 	got, err := wkt.Unmarshal(s)
 	if err != nil {
 		return fmt.Errorf("%s: Unmarshal(%q) failed: %v", what, clip(s), err)
@@ -413,7 +427,18 @@ func checkText(what, s string, want orb.Geometry, kw string) error {
 // checkGeom is the whole oracle for one geometry and one re-spelling script.
 // Tolerances: none, every comparison is on float64 bit patterns.
 func checkGeom(g orb.Geometry, flips []int, flipFill int, spaces []int, spaceFill int) error {
-	want := canonical(g)
+	before := gen.DeepCopy(g) // the argument as the caller built it (checked at the end: Marshal only reads it)
+	if err := checkGeomCalls(g, flips, flipFill, spaces, spaceFill); err != nil {
+		return err
+	}
+	if ok, why := gen.SameBits(g, before); !ok {
+		return fmt.Errorf("the geometry passed to Marshal/MarshalString was modified: %s", why)
+	}
+	return nil
+}
+
+func checkGeomCalls(g orb.Geometry, flips []int, flipFill int, spaces []int, spaceFill int) error {
+	want := canonical(gen.DeepCopy(g))
 	kw := keywordOf(want)
 	s := wkt.MarshalString(g)
 	noise(len(s))
@@ -464,6 +489,12 @@ func checkGeom(g orb.Geometry, flips []int, flipFill int, spaces []int, spaceFil
 func checkCase(c Case) error {
 	if len(c.Seq) > 0 {
 		return checkSeq(c)
+	}
+	if c.Large != nil {
+		return checkLarge(*c.Large)
+	}
+	if c.Alias != nil {
+		return checkAlias(c)
 	}
 	if c.Nest != nil {
 		g := c.Nest.build()
@@ -678,10 +709,13 @@ func coord() *rapid.Generator[float64] {
 			return float64(rapid.IntRange(-40, 40).Draw(t, "h")) / 4
 		case 3:
 			return rapid.Float64Range(-200, 200).Draw(t, "deg")
-		case 4:
-			return rapid.Float64().Draw(t, "any")
-		case 5: // below 1e-4: negative exponent form
-			e := rapid.IntRange(-323, -5).Draw(t, "e")
+		case 4: // any binade, any mantissa (normal numbers)
+			return signed(t, math.Ldexp(rapid.Float64Range(1, 2).Draw(t, "mant"), rapid.IntRange(-1022, 1023).Draw(t, "binade")))
+		case 5: // below 1e-4: negative exponent form (one in a hundred reaches into the subnormal decades)
+			e := rapid.IntRange(-307, -5).Draw(t, "e")
+			if rapid.IntRange(0, 99).Draw(t, "subdecade") == 77 { // not 0: rapid favours small values
+				e = rapid.IntRange(-323, -308).Draw(t, "esub")
+			}
 			m := rapid.Float64Range(1, 10).Draw(t, "m")
 			return signed(t, m*math.Pow(10, float64(e)))
 		case 6: // just around a print-form threshold or a power of ten
@@ -694,6 +728,9 @@ func coord() *rapid.Generator[float64] {
 			for ; k < 0; k++ {
 				v = math.Nextafter(v, 0)
 			}
+			if v < 2.2250738585072014e-308 {
+				v = 2.2250738585072014e-308 // the steps below the smallest normal number are left to TestEnumMagnitudes
+			}
 			return signed(t, v)
 		case 7: // web-mercator sized: exponent form from 1e6 on
 			return rapid.Float64Range(-20037508.342789244, 20037508.342789244).Draw(t, "merc")
@@ -705,15 +742,32 @@ func coord() *rapid.Generator[float64] {
 			e := rapid.IntRange(21, 307).Draw(t, "e")
 			m := rapid.Float64Range(1, 10).Draw(t, "m")
 			return signed(t, m*math.Pow(10, float64(e)))
-		case 10: // subnormal
-			return signed(t, math.Float64frombits(rapid.Uint64Range(1, 1<<52-1).Draw(t, "sub")))
+		case 10: // smallest normal decades; one in forty is a subnormal bit pattern
+			// (strconv parses subnormal text on its slow path, ~50 us = 1000x the cost of a normal number: subnormals are
+			// kept at ~0.3 % of the random coordinates and swept exhaustively by TestEnumMagnitudes)
+			if rapid.IntRange(0, 39).Draw(t, "subnormal") == 37 { // not 0: rapid favours small values
+				return signed(t, math.Float64frombits(rapid.Uint64Range(1, 1<<52-1).Draw(t, "sub")))
+			}
+			return signed(t, rapid.Float64Range(1, 10).Draw(t, "m")*math.Pow(10, float64(rapid.IntRange(-307, -290).Draw(t, "e"))))
 		case 11: // raw finite bit pattern
-			return fromBitsFinite(rapid.Uint64().Draw(t, "bits"))
+			// rapid favours small integers, which as bit patterns are subnormal floats: spread the draw over all
+			// patterns with a bijective mixer (a pure function of the draw)
+			u := rapid.Uint64().Draw(t, "bits")
+			u ^= u >> 30
+			u *= 0xbf58476d1ce4e5b9
+			u ^= u >> 27
+			u *= 0x94d049bb133111eb
+			u ^= u >> 31
+			return fromBitsFinite(u)
 		case 12:
-			return rapid.SampledFrom(gen.Hostile).Draw(t, "hostile")
+			h := rapid.SampledFrom(gen.Hostile).Draw(t, "hostile")
+			if math.Abs(h) < 2.2250738585072014e-308 && h != 0 && rapid.IntRange(0, 9).Draw(t, "keep subnormal") != 7 {
+				h = math.Copysign(2.2250738585072014e-308, h) // smallest normal instead, nine times in ten
+			}
+			return h
 		case 13: // integers that need 16-17 digits, powers of two
 			if rapid.Bool().Draw(t, "p2") {
-				return signed(t, math.Ldexp(1, rapid.IntRange(-1074, 1023).Draw(t, "p")))
+				return signed(t, math.Ldexp(1, rapid.IntRange(-1022, 1023).Draw(t, "p")))
 			}
 			return signed(t, float64(rapid.Int64Range(1<<52, 1<<62).Draw(t, "big")))
 		case 14: // short decimals: 1-4 significant digits at any exponent
@@ -979,7 +1033,7 @@ func TestPropRoundTrip(t *testing.T) {
 	long := gen.Geom(baseOpts(1, 60))
 	wideG := wide()
 	bigG := big()
-	stats.Check(t, 60000, 1800000, func(rt *rapid.T) {
+	stats.Check(t, 50000, 1500000, func(rt *rapid.T) {
 		var c Case
 		switch sz := rapid.IntRange(0, 39).Draw(rt, "size"); {
 		case sz == 0:
@@ -1041,6 +1095,25 @@ func TestPropCollection(t *testing.T) {
 					col = orb.Collection{col}
 				}
 			}
+		}
+		// rare large class: one member of 1500..6000 vertices (its own text passes 64 KiB) at a drawn position
+		if rapid.IntRange(0, 255).Draw(rt, "large member") == 201 { // not 0: rapid favours small values
+			n := rapid.IntRange(1500, 6000).Draw(rt, "large n")
+			pts := largePts(n, rapid.Bool().Draw(rt, "wide"))
+			var m orb.Geometry
+			switch rapid.IntRange(0, 3).Draw(rt, "large kind") {
+			case 0:
+				m = orb.LineString(pts)
+			case 1:
+				m = orb.MultiPoint(pts)
+			case 2:
+				m = orb.Polygon{ring3, pts}
+			default:
+				m = orb.Collection{orb.LineString(pts[:n/2]), orb.MultiPoint(pts[n/2:])}
+			}
+			at := rapid.IntRange(0, len(col)).Draw(rt, "large at")
+			col = append(col[:at:at], append(orb.Collection{m}, col[at:]...)...)
+			stats.Class("size:one collection member of 1500..6000 vertices")
 		}
 		c.G.V = col
 		finish(rt, &c)
